@@ -32,6 +32,7 @@ import (
 
 type cfg struct {
 	stage, pkg, mode string
+	mon              string // fork.Fold / Fold: monoid name (default: the non-commutative affine one)
 	cap, par, n, fn  int
 	k                int // Join: number of inputs
 	gated            bool
@@ -57,6 +58,8 @@ func parseCfg(s string) cfg {
 			c.pkg = p[1]
 		case "mode":
 			c.mode = p[1]
+		case "mon":
+			c.mon = p[1]
 		case "cap":
 			c.cap = iv
 		case "par":
@@ -163,6 +166,35 @@ func pred(fn, x int) bool     { return x%fn != 0 }
 func combine(a, b int) int    { return (a*31 + b) % modulus }
 
 const foldEmpty = 7
+
+// monoid family for Fold (mirrored in lean/Golem/Driver/ForkFold.lean and checks/C10.py)
+func monoidOf(name string) monoid.Monoid[int] {
+	switch name {
+	case "sum":
+		return monoid.FromOp(0, func(a, b int) int { return a + b })
+	case "prod":
+		return monoid.FromOp(1, func(a, b int) int { return (a * b) % modulus })
+	case "max":
+		return monoid.FromOp(-1000000, func(a, b int) int {
+			if a > b {
+				return a
+			}
+			return b
+		})
+	case "min":
+		return monoid.FromOp(1000000, func(a, b int) int {
+			if a < b {
+				return a
+			}
+			return b
+		})
+	case "and":
+		return monoid.FromOp(1048575, func(a, b int) int { return a & b })
+	case "or":
+		return monoid.FromOp(0, func(a, b int) int { return a | b })
+	}
+	return monoid.FromOp(foldEmpty, combine)
+}
 
 type env struct {
 	c       cfg
@@ -301,7 +333,7 @@ func build(ctx context.Context, e *env) ([]chan int, []outp) {
 		e.mu.Unlock()
 		return x, nil
 	}
-	m := monoid.FromOp(foldEmpty, combine)
+	m := monoidOf(c.mon)
 	p := func(x int) bool { return pred(c.fn, x) }
 	if c.pkg == "fork" {
 		switch c.stage {
